@@ -48,11 +48,17 @@ func (f *fetcher) handleUpstream304(req *http.Request, key cache.CacheKey) (cach
 		meta.Expires = time.Now().Add(maxAge)
 	})
 	if err != nil {
-		return nil, fmt.Errorf("%w: %v", ErrUpdateCacheMetadata, err)
+		// The entry vanished (evicted, expired) since it was looked up. That is the cache's problem,
+		// not the client's: let the caller fetch the resource directly instead of failing the request.
+		return nil, fmt.Errorf("%w: %w: %v", ErrNotCacheable, ErrUpdateCacheMetadata, err)
 	}
 
 	slog.Debug("Successfully revalidated cache metadata", "url", req.URL, "key", key)
-	return f.cache.Get(key)
+	cached, err = f.cache.Get(key)
+	if err != nil {
+		return nil, fmt.Errorf("%w: %w: %v", ErrNotCacheable, ErrCacheGetFailed, err)
+	}
+	return cached, nil
 }
 
 func (f *fetcher) handleUpstream200(req *http.Request, resp *http.Response, key cache.CacheKey, upstreamHd *headers.HeaderDirectives) (cached *cache.Entry[cachedRequestInfo], err error) {
@@ -85,7 +91,9 @@ func (f *fetcher) handleUpstream200(req *http.Request, resp *http.Response, key 
 		Header:       resp.Header,
 	})
 	if err != nil {
-		return nil, fmt.Errorf("%w: %v", ErrCacheResponseFailed, err)
+		// Storing failed (cache full, empty body, write error, ...) and the body may be partly consumed.
+		// The origin did answer, so the caller falls back to fetching directly instead of failing the request.
+		return nil, fmt.Errorf("%w: %w: %v", ErrNotCacheable, ErrCacheResponseFailed, err)
 	}
 
 	metrics.Global.Requests.BytesFetched.Add(int64(bytesRead))
@@ -301,7 +309,12 @@ func (f *fetcher) dedupFetch(req *http.Request, key cache.CacheKey, clientHd *he
 		slog.Debug("Request can't be coalesced, fetching upstream...")
 		metrics.Global.Requests.NonCoalescedRequests.Increment()
 
-		return f.fetchUpstream(req, key, clientHd)
+		fetched, err := f.fetchUpstream(req, key, clientHd)
+		if err != nil && errors.Is(err, ErrNotCacheable) {
+			slog.Debug("Cache could not take the response, falling back to direct fetch", "url", req.URL, "error", err)
+			return f.fetchDirectlyFromUpstream(req)
+		}
+		return fetched, err
 	}
 
 	originalClientHd := *clientHd // Copy the original client headers so the shared requests don't get a modified version
